@@ -546,8 +546,10 @@ func c08CheckCache(c c08CacheCase) *vResult {
 			// lifetime, for longer than the lifetime
 			for k := 0; k < 6; k++ {
 				time.Sleep(90 * time.Millisecond)
-				got := w.state.IsAdminUser("gina")
+				// measured BEFORE the query, so that a stall between the two
+				// statements cannot make a young cache entry look old
 				settled := time.Since(lastChange) > c08CacheLifetime+100*time.Millisecond
+				got := w.state.IsAdminUser("gina")
 				if !down && settled {
 					nontrivial = true
 					if got != dirAdmin {
@@ -559,8 +561,8 @@ func c08CheckCache(c c08CacheCase) *vResult {
 			}
 			shape += "p"
 		case "query":
+			settled := time.Since(lastChange) > c08CacheLifetime+100*time.Millisecond // before the query, see above
 			got := w.state.IsAdminUser("gina")
-			settled := time.Since(lastChange) > c08CacheLifetime+100*time.Millisecond
 			shape += "q"
 			if !down && settled {
 				nontrivial = true
